@@ -476,6 +476,12 @@ func (src Segment) Rewrite(dropOffsets map[int64]struct{}, params index.Params, 
 			if errors.Is(err, io.EOF) {
 				break
 			}
+			if message.IsTruncated(err) {
+				// the writing segment is rewritten while it might be appended to: a record cut
+				// short by the end of the file is a write in flight. The caller compares the number
+				// of messages seen here with its index and starts over if the segment has changed
+				break
+			}
 			return nil, err
 		}
 
